@@ -245,8 +245,8 @@ theorem find_subName_none {ds : List Desc} (h : NoSubNames ds) {n : Txt} (hn : n
   simp only [List.contains_eq_mem, decide_eq_false_iff_not] at this
   exact this hn
 
-/-- **the first pass, for one field within scope** -/
-theorem cell_rt (o : Opts) (hdeg : o.degrees = false) (ds : List Desc) (hds : NoSubNames ds) (m : Message) (f : Field)
+/-- the first pass, for one field within scope, without the degrees option -/
+theorem cell_rt0 (o : Opts) (hdeg : o.degrees = false) (ds : List Desc) (hds : NoSubNames ds) (m : Message) (f : Field)
     (hs : FieldScope m f) :
     readCell Arith.so ds m.num (writeField o m f) = .ok (parsedOf (slotOf o m f)) := by
   unfold slotOf
@@ -316,5 +316,104 @@ theorem cell_rt (o : Opts) (hdeg : o.degrees = false) (ds : List Desc) (hds : No
       have := unknown_field_rt Arith.so o ds m f hverb hp hs.byte (bt_named_of_valueOK hv) hv hshape
       rw [hs.norm] at this
       exact this
+
+/-! ### the degrees option -/
+
+/-- the options without the degrees option -/
+def noDeg (o : Opts) : Opts := { o with degrees := false }
+
+theorem semi_facts {pm : PMesg} {p : PField} (hm : pm ∈ profile) (hp : p ∈ pm.fields) :
+    (txt p.units = semicirclesTxt → p.bt = btSint32 ∧ p.array = false ∧ isScaledField p.scale p.offset = false ∧ p.subs = [] ∧
+      p.isBool = false) := by
+  have ht := semicirclesOK_true
+  simp only [semicirclesOK, List.all_eq_true, Bool.and_eq_true, Bool.or_eq_true, Bool.not_eq_true', beq_iff_eq, List.isEmpty_iff] at ht
+  intro hu
+  rcases (ht pm hm p hp).1 with h | h
+  · simp [hu] at h
+  · exact ⟨h.1.1.1.1, h.1.1.1.2, h.1.1.2, h.1.2, h.2⟩
+
+theorem fieldAtoms_noDeg (o : Opts) (units : Txt) (sc off : Nat) (v : Value) (hu : units ≠ semicirclesTxt) :
+    fieldAtoms o units sc off v = fieldAtoms (noDeg o) units sc off v := by
+  have : (units == semicirclesTxt) = false := by simpa using hu
+  simp [fieldAtoms, noDeg, this]
+
+theorem writeField_noDeg (o : Opts) (m : Message) (f : Field)
+    (hu : ∀ p, pfield m.num (fieldNumOf f) = some p → txt p.units ≠ semicirclesTxt) :
+    writeField o m f = writeField (noDeg o) m f := by
+  unfold writeField
+  cases hp : pfield m.num (fieldNumOf f) with
+  | none => rfl
+  | some p =>
+    have hne := hu p hp
+    have : (txt p.units == semicirclesTxt) = false := by simpa using hne
+    simp only [this, Bool.and_false, Bool.false_eq_true, ↓reduceIte, fieldAtoms_noDeg o _ _ _ _ hne]
+
+theorem slotOf_noDeg (o : Opts) (m : Message) (f : Field)
+    (hu : ∀ p, pfield m.num (fieldNumOf f) = some p → txt p.units ≠ semicirclesTxt) :
+    slotOf o m f = slotOf (noDeg o) m f := by
+  unfold slotOf
+  cases hp : pfield m.num (fieldNumOf f) with
+  | none => rfl
+  | some p => simp only [fieldAtoms_noDeg o _ _ _ _ (hu p hp)]
+
+/-- **a position written in degrees comes back** — `ToSemicircles(ParseFloat(format(ToDegrees(s))))` is `s`
+(`Arith.so.degrees`; float arithmetic and float text: assumed) -/
+theorem cell_rt_degrees (o : Opts) (hdeg : o.degrees = true) (ds : List Desc) (m : Message) (f : Field) (p : PField)
+    (hp : pfield m.num (fieldNumOf f) = some p) (hu : txt p.units = semicirclesTxt) (hs : FieldScope m f) :
+    readCell Arith.so ds m.num (writeField o m f) = .ok (.field (unflag f)) := by
+  obtain ⟨pm, hpm, hnum, hpf, hfn⟩ := pfield_mem hp
+  have hn := pfield_low hp
+  obtain ⟨hbt, harr, hsc, hsubs, hb⟩ := semi_facts hpm hpf hu
+  obtain ⟨h1, h2, h3, h4, _, _⟩ := field_facts hpm (hnum ▸ hn) hpf
+  rw [hnum] at h1 h2
+  have hok := hs.ok
+  unfold fieldOK at hok
+  rw [hp] at hok
+  simp only [Bool.and_eq_true, beq_iff_eq] at hok
+  obtain ⟨⟨hfbt, hv⟩, hvarr⟩ := hok
+  rw [harr] at hvarr
+  have he := elemsOf_scalar hvarr
+  unfold valueOK at hv
+  rw [he, hbt, hb] at hv
+  simp only [List.isEmpty_cons, Bool.not_false, List.all_cons, List.all_nil, Bool.and_true, Bool.true_and] at hv
+  -- the value is an int32
+  obtain ⟨x, hx, hlt⟩ : ∃ x, f.value = .int32 x ∧ x < 2 ^ 32 := by
+    cases hfv : f.value <;> rw [hfv] at hv <;>
+      simp [scalarOK, btSint32, btEnum, btSint8, btSint16, btUint16, btUint16z, btUint32, btUint32z, btSint64, btUint64, btUint64z,
+        btFloat32, btFloat64, btString, btIsUint8, btByte, btUint8, btUint8z] at hv
+    exact ⟨_, rfl, hv⟩
+  have hw : writeField o m f = ⟨txt p.name, [.degrees x], degreesTxt⟩ := by
+    have hsub : substitute m.fields p.subs = none := by rw [hsubs]; rfl
+    have hu' : (txt p.units == semicirclesTxt) = true := by simp [hu]
+    simp only [writeField, hp, hsub, hdeg, hu', Bool.and_self, ↓reduceIte]
+    congr 1
+    simp [fieldAtoms, hdeg, hu, hsc, hx, int32Of, Nat.mod_eq_of_lt hlt]
+    omega
+  rw [hw]
+  have hun : unflag f = mkField p.num p.bt (.int32 x) := by rw [unflag, hfn, hfbt, hx]
+  rw [hun]
+  simp [readCell, h3, h1, h2, harr, parseCellValue, parseAtom, hbt, hb, Arith.so]
+
+/-- **the first pass, for one field within scope** — with or without the degrees option -/
+theorem cell_rt (o : Opts) (ds : List Desc) (hds : NoSubNames ds) (m : Message) (f : Field)
+    (hs : FieldScope m f) :
+    readCell Arith.so ds m.num (writeField o m f) = .ok (parsedOf (slotOf o m f)) := by
+  cases hdeg : o.degrees
+  · exact cell_rt0 o hdeg ds hds m f hs
+  · by_cases hsemi : ∃ p, pfield m.num (fieldNumOf f) = some p ∧ txt p.units = semicirclesTxt
+    · obtain ⟨p, hp, hu⟩ := hsemi
+      obtain ⟨pm, hpm, _, hpf, _⟩ := pfield_mem hp
+      have hsubs := (semi_facts hpm hpf hu).2.2.2.1
+      have hsl : slotOf o m f = some (.inl (unflag f)) := by
+        unfold slotOf
+        rw [hp]
+        have : substitute m.fields p.subs = none := by rw [hsubs]; rfl
+        simp only [this]
+      rw [hsl]
+      exact cell_rt_degrees o hdeg ds m f p hp hu hs
+    · have hu : ∀ p, pfield m.num (fieldNumOf f) = some p → txt p.units ≠ semicirclesTxt :=
+        fun p hp h => hsemi ⟨p, hp, h⟩
+      rw [writeField_noDeg o m f hu, slotOf_noDeg o m f hu]
+      exact cell_rt0 (noDeg o) rfl ds hds m f hs
 
 end Fit.Csv
